@@ -44,11 +44,11 @@ theorem checkOne_iff_validTemplate (reg : List Check.Template) (t : Check.Templa
 theorem check_iff_valid (reg : List Check.Template) : check reg = true ↔ Valid reg := by
   simp only [check, Valid, List.all_eq_true, checkOne_iff_validTemplate]
 
-/-- a bundle the checker accepts satisfies every rule R1–R6 -/
+/-- a bundle the checker accepts satisfies every rule R1–R6 and R_loopfn -/
 theorem check_sound (reg : List Check.Template) : check reg = true → Valid reg :=
   (check_iff_valid reg).mp
 
-/-- a bundle satisfying the rules R1–R6 is accepted -/
+/-- a bundle satisfying the rules R1–R6 and R_loopfn is accepted -/
 theorem check_complete (reg : List Check.Template) : Valid reg → check reg = true :=
   (check_iff_valid reg).mpr
 
@@ -148,7 +148,8 @@ theorem KeysBound_iff (params : List Bytes) (env : Env) (ks : List Bytes) :
 /-- the bundle satisfies the rules — shown from the definitions of the specification alone -/
 example : Valid good := by
   simp [Valid, good, ValidTemplate, ParamUsed, tA, tB, bodyA, blk, pr, ref, CmdList.ofList, OkBlock, OkCmds, OkCmd,
-    OkConds, OkParams, KeysBound_iff, exprKeys, accessKeys, dirsKeys, optKeys, decl, LetUsed, LetNameOk,
+    OkConds, OkParams, ExprsOk, LoopsOk, exprLoops, accessLoops, dirsLoops, optLoops,
+    KeysBound_iff, exprKeys, accessKeys, dirsKeys, optKeys, decl, LetUsed, LetNameOk,
     refsCmds, refsCmd, refsBlock, refsConds, refsParams, refsKeys, resolve, lastIndex, ijName, x, y, z, w, i, ij,
     CallOk, callee, passedByAll, callKeys, Target.below]
 
@@ -197,6 +198,48 @@ example : check [tA [.call 0 [98] true none (.value 0 z (ref x) (.value 0 q (ref
 example : check [tA [.call 0 [98] false none (.value 0 z (ref x) .nil)], tB] = false := by decide +kernel
 /-- R6: a `{@param}` that is not at the head of the body -/
 example : check [tA [.headerParam 0 false q 0 [] none], tB] = false := by decide +kernel
+
+/-! R_loopfn: `index` / `isFirst` / `isLast` speak about an enclosing loop (/repo e0343b6). -/
+
+def fn (name : Bytes) (args : List Expr) : Expr := .func 0 name (ExprList.ofList args)
+def isFirstN : Bytes := [105, 115, 70, 105, 114, 115, 116]
+def indexN : Bytes := [105, 110, 100, 101, 120]
+def isLastN : Bytes := [105, 115, 76, 97, 115, 116]
+def tL (body : List Cmd) : Check.Template := { name := [99], params := [⟨x, false⟩], body := blk body }
+
+/-- in the body of the loop, also under a let that shadows the loop variable, all three are fine -/
+example : check [tL [.forc 0 i (ref x) (blk [pr (fn isFirstN [ref i]), .letValue 0 i (.int 0 1),
+    pr (fn indexN [ref i]), pr (fn isLastN [ref i])]) none]] = true := by decide +kernel
+/-- … and from the specification alone -/
+example : ValidTemplate [] (tL [.forc 0 i (ref x) (blk [pr (fn isFirstN [ref i])]) none]) := by
+  simp [ValidTemplate, ParamUsed, tL, blk, pr, ref, fn, isFirstN, CmdList.ofList, ExprList.ofList, OkBlock, OkCmds,
+    OkCmd, ExprsOk, LoopsOk, LoopArgOk, exprLoops, exprsLoops, accessLoops, dirsLoops, Check.loopFn, Check.loopArg,
+    KeysBound_iff, exprKeys, exprsKeys, accessKeys, dirsKeys, decl, refsCmds, refsCmd, refsBlock, refsKeys,
+    resolve, lastIndex, ijName, x, i, Target.below]
+/-- a param -/
+example : check [tL [pr (fn isFirstN [ref x])]] = false := by decide +kernel
+example : ¬ ValidTemplate [] (tL [pr (fn isFirstN [ref x])]) := by
+  simp [ValidTemplate, tL, blk, pr, ref, fn, isFirstN, CmdList.ofList, ExprList.ofList, OkBlock, OkCmds,
+    OkCmd, ExprsOk, LoopsOk, LoopArgOk, exprLoops, exprsLoops, accessLoops, dirsLoops, Check.loopFn, Check.loopArg]
+/-- a let -/
+example : check [tL [.letValue 0 v (ref x), pr (fn indexN [ref v])]] = false := by decide +kernel
+/-- a let called like a loop variable, after that loop -/
+example : check [tL [.forc 0 i (ref x) (blk [pr (ref i)]) none, .letValue 0 i (ref x), pr (fn indexN [ref i])]]
+    = false := by decide +kernel
+/-- an access on the loop variable, no argument, two arguments, a string -/
+example : check [tL [.forc 0 i (ref x) (blk [pr (fn isLastN [.dataRef 0 i (.cons (.key 0 false y) .nil)])]) none]]
+    = false := by decide +kernel
+example : check [tL [.forc 0 i (ref x) (blk [pr (ref i), pr (fn isLastN [])]) none]] = false := by decide +kernel
+example : check [tL [.forc 0 i (ref x) (blk [pr (fn isLastN [ref i, ref i])]) none]] = false := by decide +kernel
+example : check [tL [.forc 0 i (ref x) (blk [pr (ref i), pr (fn isLastN [.str 0 i i])]) none]] = false := by
+  decide +kernel
+/-- the loop's own list expression and its `ifempty` are outside the loop -/
+example : check [tL [.forc 0 i (.tern 0 (fn isFirstN [ref i]) (ref x) (ref x)) (blk [pr (ref i)]) none]] = false := by
+  decide +kernel
+example : check [tL [.forc 0 i (ref x) (blk [pr (ref i)]) (some (blk [pr (fn isFirstN [ref i])]))]] = false := by
+  decide +kernel
+/-- other functions are not concerned -/
+example : check [tL [pr (fn [108, 101, 110, 103, 116, 104] [ref x])]] = true := by decide +kernel
 
 /-! Edge cases of the rules, as the real compiler decides them (checked against /repo):
     `$ij` never denotes a variable or a param. -/
